@@ -210,7 +210,7 @@ PROPS = {
              "workers calling every GetExpectationValue/GetExpectationValueD/GetIntermediateState overload on two shared no-longer-evolving solvers of dimension 3 and 5, and a spawner of "
              "short-lived threads; random yields/sleeps at hand-over points. Oracles: ThreadSanitizer reports with a squids:: frame (de-duplicated by stack tops), bitwise equality of every result "
              "digest with the sequential run on the main thread (matrix exponentials within 1e-9), ledger: cross-thread releases observed, no array block live after all workers ended.",
-        floors=dict(quick={"workers.algebra": 10, "workers.query": 5, "workers.short_lived": 20, "blocks_allocated_on_one_thread_released_on_another": 100, "worker_threads_ended": 50},
+        floors=dict(quick={"workers.algebra": 100, "workers.query": 50, "workers.short_lived": 200, "blocks_allocated_on_one_thread_released_on_another": 1000, "worker_threads_ended": 500},
                     thorough={"workers.algebra": 200}),
         assumptions=["TSan sees only the interleavings that occur and only instrumented code (GSL internals are invisible; the library does not share GSL objects across threads)"],
         timeout=dict(quick=1500, thorough=7200),
